@@ -81,10 +81,10 @@ fn c11_o1_singleton_add() {
 }
 
 //@ ob: C11.O2
+//@ tier: off
+//@ cap: 3000
 //@ rss: 6.7
 //@ time: 1714
-//@ tier: thorough
-//@ cap: 1800
 //@ standins: vcoll
 //@ desc: inductive step: an accumulator of 2 nodes satisfying Inv plus one symbolic add satisfies Inv again; the old nodes are kept in their order; the new node is inserted unless refused by the per-IP rule or its id is already present
 //@ bounds: target and 3 nodes with ids [b0,b1,b2,0..,r] (4 symbolic bytes each: BEP42 prefix + r, XOR ties on leading bytes) and fully symbolic IPv4; unwind 21
@@ -173,8 +173,8 @@ fn node_at(i: u8) -> Node {
 }
 
 //@ ob: C11.O4
-//@ tier: thorough
-//@ cap: 2700
+//@ tier: off
+//@ cap: 3000
 //@ mem: 28
 //@ standins: vcoll
 //@ desc: take_until_secure(est, subnets) returns a prefix of the accumulator (same base pointer) of length >= min(20, n) and <= n, on 22 concrete nodes, for symbolic subnets and est in {0, 1, 20, 1000, 10^6, 10^7, usize::MAX}
